@@ -26,7 +26,7 @@ theorem findOpen_eq (simd : Bool) (st : List (BitVec 64)) (len : Nat) (k : SelKi
       have : (bitsOf st len)[p]? = some true := by simpa using ho
       rw [this]; simp
     · simp only [hp, ho, or_self, if_false]
-      exact freeFindOpen_eq st len p hw
+      exact freeFindOpen_eq st len p (by omega)
 
 theorem enclose_eq (simd : Bool) (st : List (BitVec 64)) (len : Nat) (k : SelKind) (p : Nat)
     (hw : st.length = (len + 63) / 64) (hlen : len < 2 ^ 31) :
@@ -48,6 +48,6 @@ theorem enclose_eq (simd : Bool) (st : List (BitVec 64)) (len : Nat) (k : SelKin
       have : (bitsOf st len)[p]? = some false := by simpa using ho
       rw [this]; simp
     · simp only [hp, ho, or_self, if_false]
-      exact freeEnclose_eq st len p hw hlen
+      exact freeEnclose_eq st len p (by omega) hlen
 
 end SV.BPS
